@@ -92,9 +92,9 @@ CHECKS = {
             'its counter ends >= 1 and strictly larger than before when autoreset is disabled, and with autoreset the data is reset '
             '(all other counters cleared). mj_warning itself is verified against its contract. The bad-control check of mj_fwdActuation (PREFIX contract, entry to the exit of the control-check loop; stack allocator by its C19 contract): a bad control zeroes every control, is counted once under mjWARN_BADCTRL and the warning names a bad index; good controls pass unchanged and uncounted. The rest of mj_fwdActuation is not part of the verified text.',
             'Trusted: VC generator, clang, z3/cvc5. Assumed contracts: mj_resetData (clears warning counters, may rewrite mjData), '
-            'mj_forward (keeps warning statistics). Sizes fit int. Not decided: finiteness of the state after a whole mj_step; the bad-ctrl '
-            'check inside mj_fwdActuation.',
-            'contracts + inductive loop invariants, z3 QF_FP / LIA + arrays + quantifiers'),
+            'mj_forward (keeps warning statistics). Sizes fit int. mj_fwdActuation prefix: stack allocator by its C19 contract, delayed controls arbitrary, clampVec by its any-input view, timer callback effect-free. '
+            'Not decided: finiteness of the state after a whole mj_step; mj_fwdActuation after its control check.',
+            'contracts + inductive loop invariants (one unit as a prefix contract), z3 QF_FP / LIA + arrays + quantifiers'),
     'C50': ('DESIGN.md section 4 / C50',
             'Deductive proof of the capacity half of the property: acquireGeom returns NULL exactly when ngeom >= maxgeom and then sets '
             'the status flag, otherwise it returns the slot geoms+ngeom and every write it makes lies inside the geoms buffer (bounds '
@@ -216,7 +216,8 @@ CHECKS = {
             'leaves every limited entry inside its range, unchanged if it already was, and never touches an unlimited entry; '
             'mj_actuatorDisabled is exactly the bit of the actuator group in the disable mask for groups 0..30 and 0 otherwise. mju_muscleDynamics (reals): the activation moves toward the clamped control. At the real call site (mj_fwdActuation, PREFIX contract: entry to the exit of the control-check loop) limited controls end inside ctrlrange unless clamping is disabled or every control was zeroed because one was bad - through an any-input view of clampVec (a NaN stays a NaN, everything else ends in range) proved on its body.',
             'Trusted: VC generator, clang, z3/cvc5. Assumed: index lists distinct and in range; ranges ordered, no NaN in the clamped vector. '
-            'Not decided (listed): mj_fwdActuation as a whole, transmissions, muscle curves.',
+            'mj_fwdActuation prefix: stack allocator by its C19 contract, delayed controls arbitrary, timer callback effect-free, limited control ranges ordered. '
+            'Not decided (listed): mj_fwdActuation after its control check, transmissions, muscle curves.',
             'contracts + symbolic VC generation, z3 QF_FP (exact Float64) + LIA+arrays+quantifiers'),
     'C46': ('DESIGN.md section 4 / C46',
             'Deductive, exact over IEEE Float64, on statements sliced from the real python/mujoco/minimize.py (re-parsed every run) and '
